@@ -174,3 +174,16 @@ bounded_only('C14', 'bounded.c14',
     ['LLOneParser.get_first_set', 'get_follow_set', 'get_llone_parsing_table', 'is_llone_parsable', 'get_llone_parse_tree', 'SetQueue'],
     'case = one grammar without useless symbols; non-trivial = LL(1) and (epsilon production or >=3 productions)',
     {'quick': 'useless-free grammars among 12384 exhaustive + 2500 random; words <=4', 'thorough': '124k exhaustive + 25000 random'})
+
+bounded_only('C15', 'bounded.c15',
+    'Bounded stand-in only: every tree returned by get_cnf_parse_tree, LLOneParser.get_llone_parse_tree, RecursiveDecentParser.get_parse_tree (both sides) and FCFG.get_parse_tree for the words of length <=3 is checked node by node against the production set it must come from (normal form for the CNF tree), its leaves against the word, and both derivation listings step by step; non-members must be refused with the documented exception. Recursive descent only on grammars without epsilon and unit productions and without recursion on the side it expands (the repository test suite expects RecursionError there).',
+    'Trusted: specs/ll1.py tree and derivation validators, specs/cfg.py membership oracle. Trees are built by mutation of shared ParseTree objects on parser stacks and Earley charts: heap-shape reasoning, outside the VC generator.',
+    ['CYKTable / CYKNode', 'LLOneParser.get_llone_parse_tree', 'RecursiveDecentParser', 'FCFG._get_final_state / predictor / scanner / completer', 'ParseTree.get_leftmost_derivation', 'ParseTree.get_rightmost_derivation'],
+    'case = one grammar; non-trivial as in C08',
+    {'quick': '904 exhaustive + 1500 random grammars; words <=3 plus an unknown symbol', 'thorough': '12384 exhaustive + 15000 random'})
+bounded_only('C18', 'bounded.c18',
+    'Bounded stand-in only: a.unify(b) and b.unify(a) on random consistently typed structures (depth <=3, atomic / unspecified / nested values, variables shared between leaves) against the glb computed by congruence closure on paths (success iff no conflict, equal leaf values and sharing, order independent, FeatureStructuresNotCompatibleException only); FCFG.contains against derivability in the plain CFG (feature-free case, epsilon productions included) and in the grammar instantiated over {sg, pl} (agreement variables shared within a production).',
+    'Trusted: specs/fs.py (path congruence closure), specs/cfg.py; features in the grammar part are one flat atomic feature per occurrence. Destructive unification through forwarding pointers: no deductive route.',
+    ['FeatureStructure.unify', 'get_dereferenced', 'copy', 'subsumes', 'StateProcessed.add', 'FCFG.contains / Earley loop'],
+    'case = pair of feature structures, or one feature-free grammar, or one grammar with feature annotations; non-trivial = compatible pair with sharing or >3 paths / non-trivial grammar / non-empty instantiated language with at least one annotation',
+    {'quick': '4000 pairs + 2104 plain grammars + 1500 annotated grammars; words <=3', 'thorough': 'x10, 8 hash seeds'})
